@@ -446,8 +446,10 @@ class SrvAdapter:
                 self._call(sio.disconnect, self._real_sid(a['sid']),
                            namespace=a['ns'])
             elif act == 'SaveSession':
+                # the key itself names the value: a save that merges into the
+                # previous contents instead of replacing them shows
                 self._call(sio.save_session, self._real_sid(a['sid']),
-                           {'tag': a['val']}, namespace=a['ns'])
+                           {'k_' + a['val']: 1}, namespace=a['ns'])
             elif act == 'GetSession':
                 r = self._call(sio.get_session, self._real_sid(a['sid']),
                                namespace=a['ns'])
@@ -531,8 +533,10 @@ class SrvAdapter:
     def _sess_tok(self, r):
         if r == {}:
             return 'empty'
-        if isinstance(r, dict) and set(r) == {'tag'}:
-            return str(r['tag'])
+        if isinstance(r, dict) and len(r) == 1:
+            k, v = next(iter(r.items()))
+            if isinstance(k, str) and k.startswith('k_') and v == 1:
+                return k[2:]
         return '?' + repr(r)[:40]
 
     def _session_block(self, a):
@@ -542,12 +546,14 @@ class SrvAdapter:
             async def _w():
                 async with sio.session(sid, namespace=a['ns']) as s:
                     before = self._sess_tok(s)
-                    s['tag'] = a['val']
+                    s.clear()
+                    s['k_' + a['val']] = 1
                     return before
             return self._run(_w())
         with sio.session(sid, namespace=a['ns']) as s:
             before = self._sess_tok(s)
-            s['tag'] = a['val']
+            s.clear()
+            s['k_' + a['val']] = 1
             return before
 
     def _bin_frame(self, a):
